@@ -1070,7 +1070,13 @@ impl<K: EnrKey> FromStr for Enr<K> {
         let bytes = URL_SAFE_NO_PAD
             .decode(decode_string)
             .map_err(|e| format!("Invalid base64 encoding: {e:?}"))?;
-        Self::decode(&mut bytes.as_ref()).map_err(|e| format!("Invalid ENR: {e:?}"))
+        let mut rlp = bytes.as_ref();
+        let enr = Self::decode(&mut rlp).map_err(|e| format!("Invalid ENR: {e:?}"))?;
+        // the text form holds exactly one record
+        if !rlp.is_empty() {
+            return Err("Invalid ENR: trailing data after the record".to_string());
+        }
+        Ok(enr)
     }
 }
 
